@@ -173,6 +173,14 @@ Fixpoint val_eqb (a b : val) {struct a} : bool :=
   | _, _ => false
   end.
 
+(* Go's == on map keys: as val_eqb, except that the two float zeros are one key *)
+Definition fzero (b : N) : bool := (b =? 0)%N || (b =? 2 ^ 63)%N.
+Definition key_eqb (a b : val) : bool :=
+  match a, b with
+  | VFloat x, VFloat y => (x =? y)%N || (fzero x && fzero y)
+  | _, _ => val_eqb a b
+  end.
+
 (* ---------- zero values ---------- *)
 
 Fixpoint zero (t : gotype) : val :=
@@ -201,11 +209,12 @@ Section MapRes.
     end.
 End MapRes.
 
-(* reflect.Value.SetMapIndex on an association list: replace in place or append *)
+(* reflect.Value.SetMapIndex on an association list: replace in place (Go also stores the new
+   key when it is a float, which only matters for the sign of a zero) or append *)
 Fixpoint map_set (k e : val) (m : list (val * val)) : list (val * val) :=
   match m with
   | [] => [(k, e)]
-  | (k', e') :: r => if val_eqb k k' then (k, e) :: r else (k', e') :: map_set k e r
+  | (k', e') :: r => if key_eqb k k' then (k, e) :: r else (k', e') :: map_set k e r
   end.
 
 (* the loop of convertMap over w.MapKeys(), in the order the entries are listed.
@@ -331,7 +340,7 @@ Fixpoint has_typeb (t : gotype) (v : val) {struct t} : bool :=
   | TSlice e, VSlice l => forallb (has_typeb e) l
   | TMap k e, VMap m =>
       forallb (fun kv : val * val => has_typeb k (fst kv) && has_typeb e (snd kv)) m
-      && nodupb val_eqb (map fst m)
+      && nodupb key_eqb (map fst m)
   | TStruct fs, VStruct vs =>
       (fix go (fs : list (string * gotype)) (vs : list val) : bool :=
          match fs, vs with
@@ -397,6 +406,33 @@ Fixpoint agree (t1 t2 : gotype) (v v' : val) {struct t1} : Prop :=
          | _, _ => False
          end) fs1 vs
   | _, _, _, _ => False
+  end.
+
+(* ---------- "kinds that are not compatible", at any depth ---------- *)
+
+Definition class_eqb (a b : kclass) : bool :=
+  match a, b with
+  | KBool, KBool | KString, KString | KInteger, KInteger | KFloat, KFloat
+  | KSlice, KSlice | KMap, KMap | KStruct, KStruct => true
+  | _, _ => false
+  end.
+
+(* other_kind_reached to from w: converting w : from into `to` meets, at the top or at some
+   element, key or matched field that w actually holds, a pair of kinds of different classes *)
+Fixpoint other_kind_reached (to from : gotype) (w : val) {struct to} : bool :=
+  negb (class_eqb (class_of to) (class_of from)) ||
+  match to, from, w with
+  | TSlice te, TSlice fe, VSlice l => existsb (other_kind_reached te fe) l
+  | TMap tk te, TMap fk fe, VMap m =>
+      existsb (fun kv : val * val => other_kind_reached tk fk (fst kv) || other_kind_reached te fe (snd kv)) m
+  | TStruct tfs, TStruct ffs, VStruct ws =>
+      existsb (fun nt : string * gotype =>
+                 let (n, t) := nt in
+                 match find_field n ffs ws with
+                 | Some (ft, fw) => other_kind_reached t ft fw
+                 | None => false
+                 end) tfs
+  | _, _, _ => false
   end.
 
 (* scalar leaves, left to right (keys before elements) *)
